@@ -361,6 +361,7 @@ package server
 //@   atcall AddInt64 requires paired: (arg0 == usage.up && arg1 == upIncured) || (arg0 == usage.down && arg1 == downIncured)
 //@   ensures locks: holdsNone()
 //@   modifies *
+//@   preserves userPanel.Manager, ActiveUser.panel
 //@   loop 0 invariant lk: held(panel.activeUsersM) && held(panel.usageUpdateQueueM) && panel != nil && panel.activeUsers != nil && panel.usageUpdateQueue != nil
 //@   loop 0 invariant users: forall k [16]byte :: mapHas(panel.activeUsers, k) ==> panel.activeUsers[k] != nil
 //@   loop 0 invariant pairs: forall k [16]byte :: mapHas(panel.usageUpdateQueue, k) ==> panel.usageUpdateQueue[k] != nil && panel.usageUpdateQueue[k].up != nil && panel.usageUpdateQueue[k].down != nil && panel.usageUpdateQueue[k].up != panel.usageUpdateQueue[k].down
@@ -406,6 +407,16 @@ package server
 //@     assert(registered(panel, user))
 //@ }
 
+// Serve: the accept loop. Every accepted connection is handed to dispatchConnection in a goroutine of
+// its own, with a state that satisfies dispatchConnection's precondition (checked where the goroutine is
+// started); repeated Accept failures back off through a table that is never indexed out of range.
+//@ func (net.Listener).Accept
+//@   flag trusted
+//@   ensures ret1 == nil ==> ret0 != nil
+//@ func Serve
+//@   requires l != nil && sta != nil && sta.Panel != nil && sta.Panel.Manager != nil && sta.RedirDialer != nil && sta.RedirHost != nil && pvOK(sta.StaticPv)
+//@   flag noframe
+//@   loop 0 invariant backoffIndex: 0 <= fails && fails <= 9 && l != nil && sta != nil && sta.Panel != nil && sta.Panel.Manager != nil && sta.RedirDialer != nil && sta.RedirHost != nil && pvOK(sta.StaticPv)
 // serveSession (C01 routing, C17): every accepted stream is connected to the proxy-book entry of the
 // method the client authenticated for and relayed in both directions between exactly that stream and
 // exactly that connection; the function returns only after the session has been taken out of the
@@ -432,9 +443,20 @@ package server
 //@   flag trusted
 //@ func parseProxyBook
 //@   flag trusted
+// MakeUserPanel (C16/C17): a new panel has both tables empty and allocated, carries the manager it was
+// given, and starts the periodic upload; each round of that upload first collects the valves' counters into
+// the queue and only then commits the queue (so that what is committed includes the latest traffic).
 //@ func MakeUserPanel
-//@   flag trusted
-//@   ensures ret0 != nil && fresh(ret0)
+//@   requires manager != nil
+//@   ensures ret0 != nil && fresh(ret0) && ret0.Manager == manager
+//@ func (*userPanel).regularQueueUpload
+//@   requires panel != nil && panel.Manager != nil
+//@   flag noframe
+//@   loop 0 invariant live: panel != nil && panel.Manager != nil
+//@ func (*userPanel).regularQueueUpload$1
+//@   requires panel != nil && panel.Manager != nil && holdsNone()
+//@   atcall commitUpdate requires collectedFirst: called("(*userPanel).updateUsageQueue")
+//@   flag noframe
 //@ func github.com/cbeuw/Cloak/internal/server/usermanager.MakeLocalManager
 //@   flag trusted
 //@ func InitState
